@@ -164,11 +164,11 @@ opt-level = 0
         lib = [RUST_ALLOW]
         for f in self.features_nightly:
             lib.append(f"#![cfg_attr(kani, feature({f}))]")
-        lib.append("pub mod rt { pub mod spec; pub mod vany; " + " ".join(f"pub mod {os.path.splitext(os.path.basename(x))[0]};" for x in self.extra_rt) + " }")
+        lib.append("pub mod rt { pub mod spec; pub mod vany; #[cfg(not(kani))] pub mod selftest; " + " ".join(f"pub mod {os.path.splitext(os.path.basename(x))[0]};" for x in self.extra_rt) + " }")
         for u in self.units:
             lib.append(f"pub mod {u.uid};")
         files["src/lib.rs"] = "\n".join(lib) + "\n"
-        for rt in ["spec.rs", "vany.rs"] + [os.path.basename(x) for x in self.extra_rt]:
+        for rt in ["spec.rs", "vany.rs", "selftest.rs"] + [os.path.basename(x) for x in self.extra_rt]:
             files["src/rt/" + rt] = open(os.path.join(VERIF, "rt", rt)).read()
         for u in self.units:
             files[f"src/{u.uid}.rs"] = self.module_text(u)
@@ -401,6 +401,13 @@ fn pmsg(e: Box<dyn std::any::Any + Send>) -> String {
 fn main() {
     let a: Vec<String> = std::env::args().collect();
     let name = a[1].clone();
+    if name == "spec-selftest" {
+        match __CRATE__::rt::selftest::spec_selftest() {
+            Ok(n) => println!("REPLAY selftest ok checks={}", n),
+            Err(e) => println!("REPLAY selftest FAILED {}", e),
+        }
+        return;
+    }
     panic::set_hook(Box::new(|_| {}));
     if a[2].starts_with("search:") {
         // falsification attempt for an "unreachable cover" verdict: random inputs, count hits of label a[3]
@@ -438,7 +445,7 @@ __ARMS__
 '''
 
 
-def native_replay(root, units, cases, dep, lock, release_macro=False, extra_rt=(), timeout=900):
+def native_replay(root, units, cases, dep, lock, release_macro=False, extra_rt=(), timeout=900, selftest=False):
     """cases: list of (uid, hname, vals). Builds one replay crate (stable toolchain, real macro,
     no Kani) and runs every case in dev and release. returns {index: {'dev': str, 'release': str}}"""
     if os.path.exists(root):
@@ -468,6 +475,15 @@ def native_replay(root, units, cases, dep, lock, release_macro=False, extra_rt=(
             cmd.append("--release")
         rc, o, e, w = sh(cmd, cwd=root, timeout=timeout)
         built[prof] = (rc == 0, e[-3000:])
+    if selftest:
+        for prof in ("dev", "release"):
+            if not built[prof][0]:
+                out["selftest_" + prof] = "BUILD-FAILED " + built[prof][1][-1500:]
+                continue
+            exe = os.path.join(tdir, "debug" if prof == "dev" else "release", "replay")
+            rc, o, e, w = sh([exe, "spec-selftest", "-"], cwd=root, timeout=120)
+            m = re.search(r"^REPLAY .*$", o, re.M)
+            out["selftest_" + prof] = m.group(0) if m else f"NO-OUTPUT rc={rc} {e[-300:]}"
     for i, (uid, hname, vals) in enumerate(cases):
         out[i] = {}
         if isinstance(vals, dict):  # {'search': label, 'seed': n, 'count': n}
